@@ -205,6 +205,9 @@ func verifC08_step() {
 	lr := c.msgReader.limitReader
 	cr := &vContractReader{}
 	lr.reset(cr)
+	// (representation invariant: the limit reader is only ever used inside a message, whose reader carries the context
+	// the message was opened with)
+	c.msgReader.ctx = vBG
 	k := vChoose("remaining", L+2) // 0..L+1
 	lr.n = int64(k)
 	p := make([]byte, vChoose("plen", 5))
